@@ -294,4 +294,150 @@ theorem downgrade_type (cfg : Cfg) (P : Palettes) (c r : Color) (sys : ColorSyst
     | (left; exact h.symm)
     | (right; (repeat' split at h) <;> first | (cases h; rfl) | cases h)
 
+/-! ## idempotence, fixed points, nearest entry, SGR parameters, metric bound -/
+
+theorem downgrade_idem (cfg : Cfg) (P : Palettes) (c r : Color) (sys : ColorSystem)
+    (h : downgrade cfg P c sys = .ok r) : downgrade cfg P r sys = .ok r := by
+  rcases downgrade_type cfg P c r sys h with rfl | ht
+  · exact h
+  · unfold downgrade
+    simp [ht]
+
+theorem downgrade_native (cfg : Cfg) (P : Palettes) (c : Color) (sys : ColorSystem)
+    (h : c.type = .default ∨ c.type.toNat = sys.toNat ∨ sys = .truecolor ∨ (sys = .eightBit ∧ c.type ≠ .truecolor)) :
+    downgrade cfg P c sys = .ok c := by
+  obtain ⟨name, type, number, triplet⟩ := c
+  cases type <;> cases sys <;>
+    simp [downgrade, Color.system, ColorType.toNat, ColorSystem.toNat] at h ⊢
+
+/-- the 16-colour type that belongs to a 16-colour system -/
+def ColorSystem.type16 : ColorSystem → ColorType
+  | .windows => .windows
+  | _ => .standard
+
+theorem downgrade_keeps_index (cfg : Cfg) (hcfg : cfg.stdViaPalette = false) (P : Palettes) (c : Color)
+    (sys : ColorSystem) (n : Nat)
+    (hsys : sys = .standard ∨ sys = .windows)
+    (ht : c.type = .standard ∨ c.type = .eightBit ∨ c.type = .windows)
+    (hn : c.number = some n) (h16 : n < 16) :
+    ∃ r, downgrade cfg P c sys = .ok r ∧ r.number = some n ∧ r.type = sys.type16 ∧ r.name = c.name := by
+  obtain ⟨name, type, number, triplet⟩ := c
+  simp only at hn ht
+  subst hn
+  rcases hsys with rfl | rfl <;> rcases ht with rfl | rfl | rfl <;>
+    simp [downgrade, Color.system, ColorType.toNat, ColorSystem.toNat, assertSome, bind, Except.bind, hcfg, h16,
+      ColorSystem.type16]
+
+/-- The RGB value a palette search is specified over: the triplet of a truecolor colour, the
+8-bit palette entry of an 8-bit colour. -/
+def sourceTriplet (P : Palettes) (c : Color) : Option Triplet :=
+  match c.type with
+  | .truecolor => c.triplet
+  | .eightBit => match c.number with
+    | some n => P.eightBit[n]?
+    | none => none
+  | _ => none
+
+theorem downgrade_nearest (cfg : Cfg) (P : Palettes) (c r : Color) (sys : ColorSystem) (t : Triplet)
+    (hsys : sys = .standard ∨ sys = .windows)
+    (hsrc : sourceTriplet P c = some t)
+    (hbig : c.type = .eightBit → ∀ n, c.number = some n → 16 ≤ n)
+    (h : downgrade cfg P c sys = .ok r) :
+    ∃ k, r.number = some k ∧ r.type = sys.type16 ∧
+      IsNearest (if sys = .windows then P.windows else P.standard) t k := by
+  obtain ⟨name, type, number, triplet⟩ := c
+  rcases hsys with rfl | rfl <;> cases type <;> simp [sourceTriplet] at hsrc
+  case inl.truecolor =>
+    subst hsrc
+    simp [downgrade, Color.system, ColorType.toNat, ColorSystem.toNat, assertSome, bind, Except.bind] at h
+    split at h
+    · cases h
+    · next k hk => cases h; exact ⟨k, rfl, rfl, by simpa using paletteMatch_spec _ _ _ hk⟩
+  case inr.truecolor =>
+    subst hsrc
+    simp [downgrade, Color.system, ColorType.toNat, ColorSystem.toNat, assertSome, bind, Except.bind] at h
+    split at h
+    · cases h
+    · next k hk => cases h; exact ⟨k, rfl, rfl, by simpa using paletteMatch_spec _ _ _ hk⟩
+  case inl.eightBit =>
+    cases number with
+    | none => simp at hsrc
+    | some n =>
+      simp only at hsrc
+      have hn : 16 ≤ n := hbig rfl n rfl
+      have hn' : ¬ n < 16 := by omega
+      simp [downgrade, Color.system, ColorType.toNat, ColorSystem.toNat, assertSome, bind, Except.bind,
+        paletteGet, hsrc, hn'] at h
+      split at h
+      · cases h
+      · next k hk => cases h; exact ⟨k, rfl, rfl, by simpa using paletteMatch_spec _ _ _ hk⟩
+  case inr.eightBit =>
+    cases number with
+    | none => simp at hsrc
+    | some n =>
+      simp only at hsrc
+      have hn : 16 ≤ n := hbig rfl n rfl
+      have hn' : ¬ n < 16 := by omega
+      simp [downgrade, Color.system, ColorType.toNat, ColorSystem.toNat, assertSome, bind, Except.bind,
+        paletteGet, hsrc, hn'] at h
+      split at h
+      · cases h
+      · next k hk => cases h; exact ⟨k, rfl, rfl, by simpa using paletteMatch_spec _ _ _ hk⟩
+
+
+/-- The standard SGR parameters for a colour of each kind (ECMA-48 / xterm):
+39/49 default; 30-37, 90-97 (fg) and 40-47, 100-107 (bg) for the 16 colours;
+38;5;n / 48;5;n; 38;2;r;g;b / 48;2;r;g;b. -/
+def sgrSpec (c : Color) (fg : Bool) : List Nat :=
+  match c.type with
+  | .default => [if fg then 39 else 49]
+  | .standard | .windows =>
+    let n := c.number.getD 0
+    [if n < 8 then (if fg then 30 else 40) + n else (if fg then 90 else 100) + (n - 8)]
+  | .eightBit => [if fg then 38 else 48, 5, c.number.getD 0]
+  | .truecolor =>
+    match c.triplet with
+    | some t => [if fg then 38 else 48, 2, t.red, t.green, t.blue]
+    | none => []
+
+theorem getAnsiCodes_spec (c : Color) (fg : Bool) (h : c.WF) : getAnsiCodes c fg = .ok (sgrSpec c fg) := by
+  obtain ⟨name, type, number, triplet⟩ := c
+  cases type <;> simp only [Color.WF] at h
+  · simp [getAnsiCodes, sgrSpec]
+  · obtain ⟨⟨n, rfl, hn⟩, rfl⟩ := h
+    simp only [getAnsiCodes, sgrSpec, assertSome, bind, Except.bind, Option.getD_some]
+    by_cases h8 : n < 8 <;> cases fg <;> simp [h8] <;> omega
+  · obtain ⟨⟨n, rfl, hn⟩, rfl⟩ := h
+    simp [getAnsiCodes, sgrSpec, assertSome, bind, Except.bind]
+  · obtain ⟨rfl, t, rfl, ht⟩ := h
+    simp [getAnsiCodes, sgrSpec, assertSome, bind, Except.bind]
+  · obtain ⟨⟨n, rfl, hn⟩, rfl⟩ := h
+    simp only [getAnsiCodes, sgrSpec, assertSome, bind, Except.bind, Option.getD_some]
+    by_cases h8 : n < 8 <;> cases fg <;> simp [h8] <;> omega
+
+theorem absDiff_le (a b : Nat) (ha : a ≤ 255) (hb : b ≤ 255) : absDiff a b ≤ 255 := by
+  unfold absDiff; split <;> omega
+
+theorem colorDist2_le (c p : Triplet) (hc : c.WF) (hp : p.WF) : colorDist2 c p ≤ 649740 := by
+  obtain ⟨c1, c2, c3⟩ := hc
+  obtain ⟨p1, p2, p3⟩ := hp
+  unfold colorDist2
+  simp only
+  have hr := absDiff_le c.red p.red c1 p1
+  have hg := absDiff_le c.green p.green c2 p2
+  have hb := absDiff_le c.blue p.blue c3 p3
+  have hrr : absDiff c.red p.red * absDiff c.red p.red ≤ 255 * 255 := Nat.mul_le_mul hr hr
+  have hgg : absDiff c.green p.green * absDiff c.green p.green ≤ 255 * 255 := Nat.mul_le_mul hg hg
+  have hbb : absDiff c.blue p.blue * absDiff c.blue p.blue ≤ 255 * 255 := Nat.mul_le_mul hb hb
+  have hm : (c.red + p.red) / 2 ≤ 255 := by omega
+  have h1 : (512 + (c.red + p.red) / 2) * absDiff c.red p.red * absDiff c.red p.red ≤ 767 * (255 * 255) := by
+    rw [Nat.mul_assoc]; exact Nat.mul_le_mul (by omega) hrr
+  have h3 : (767 - (c.red + p.red) / 2) * absDiff c.blue p.blue * absDiff c.blue p.blue ≤ 767 * (255 * 255) := by
+    rw [Nat.mul_assoc]; exact Nat.mul_le_mul (by omega) hbb
+  have h1' := Nat.div_le_div_right (c := 256) h1
+  have h3' := Nat.div_le_div_right (c := 256) h3
+  have h2 : 4 * absDiff c.green p.green * absDiff c.green p.green ≤ 4 * (255 * 255) := by
+    rw [Nat.mul_assoc]; exact Nat.mul_le_mul (Nat.le_refl 4) hgg
+  omega
+
 end RichModel
